@@ -8,6 +8,12 @@
    what IS modelled is that every Python primitive the formatter applies to DATA is
    partial: [res] has an explicit [Exn] for "this call raises".
 
+   The two markers of display.py are private objects compared BY IDENTITY: _ROW_GAP (the gap
+   between the first and last shown rows of a column preview) and _HIDDEN (the header cell
+   standing for the hidden middle columns).  No stored value and no str(name) is ever
+   identical to them, so in the model they are constructors of their own ([PEll], [HEll])
+   and no data value and no name can take their branch.
+
    Not modelled: column alignment/padding (str.rjust/ljust, total), the dot-access row
    (.a_b — property C17 owns it), nested tables beyond "this is not a 2-D table".
    No proofs here. *)
@@ -34,30 +40,27 @@ Inductive fclass := FNan | FPosInf | FNegInf | FFinite (integral : bool).
 
 Inductive vshape :=
 | VFloat (c : fclass)      (* a float (or an instance of a subclass) *)
-| VIntLike                 (* bool / int: int(v) is defined and equals v *)
+| VIntLike (big : bool)    (* bool / int: int(v) is defined and equals v; [big]: it is beyond the float
+                              range, i.e. float(v) raises OverflowError *)
 | VDateLike                (* date / datetime: has .isoformat() *)
-| VStr (dots : bool)       (* a str; [dots]: it is equal to the three-character string '...' *)
-| VOther                   (* any other object: only ==, str(), repr() are defined on it *)
-| VVector.                 (* a serif Vector: == is elementwise, the truth value of the result raises *)
+| VStr (dots : bool)       (* a str; [dots]: it is equal to the three-character string '...' (display.py
+                              no longer asks: the flag is carried so that statements and examples can
+                              name such a cell, and nothing below inspects it) *)
+| VOther                   (* any other object: only str() and repr() are applied to it *)
+| VVector (nonempty : bool).
+                           (* a serif Vector: ==/!= are elementwise, the truth value of the result raises;
+                              str(v) is that vector's own repr; its .shape is (len,) when [nonempty], else () *)
 
 Definition cellv := option vshape.      (* None = Python None *)
 
 (* ---- the Python primitives applied to data, with their domains ---- *)
 
-(* `if v == '...':` — bool(v.__eq__('...')) *)
-Definition truth_eq_dots (s : vshape) : res bool :=
-  match s with
-  | VStr d => Ret d
-  | VVector => Exn          (* Vector.__bool__ raises TypeError *)
-  | _ => Ret false
-  end.
-
-(* `v != v or v in (float('inf'), float('-inf'))` *)
+(* `v != v or v in (float('inf'), float('-inf'))` (float columns only) *)
 Definition nonfinite (s : vshape) : res bool :=
   match s with
   | VFloat (FFinite _) => Ret false
   | VFloat _ => Ret true
-  | VVector => Exn
+  | VVector _ => Exn        (* Vector.__bool__ raises TypeError *)
   | _ => Ret false
   end.
 
@@ -65,7 +68,7 @@ Definition nonfinite (s : vshape) : res bool :=
    without __int__, and (in general) for strings *)
 Definition py_int (s : vshape) : res unit :=
   match s with
-  | VFloat (FFinite _) | VIntLike => Ret tt
+  | VFloat (FFinite _) | VIntLike _ => Ret tt
   | _ => Exn
   end.
 
@@ -73,14 +76,16 @@ Definition py_int (s : vshape) : res unit :=
 Definition equals_its_int (s : vshape) : bool :=
   match s with
   | VFloat (FFinite b) => b
-  | VIntLike => true
+  | VIntLike _ => true
   | _ => false
   end.
 
-(* `f"{v:.1f}"`, `f"{v:g}"`: defined for real numbers only *)
+(* `f"{v:.1f}"`, `f"{v:g}"`: defined for real numbers only; an int is converted with float(v)
+   first, which raises OverflowError beyond the float range *)
 Definition py_format_float (s : vshape) : res unit :=
   match s with
-  | VFloat _ | VIntLike => Ret tt
+  | VFloat _ => Ret tt
+  | VIntLike big => if big then Exn else Ret tt
   | _ => Exn
   end.
 
@@ -102,7 +107,8 @@ Inductive fmt :=
 | FmtIso       (* v.isoformat() *)
 | FmtRepr.     (* repr(v) *)
 
-(* display.py:97-114 — type-sensitive formatting of one non-None, non-'...' value *)
+(* display.py _format_column, the loop body — type-sensitive formatting of one value that is
+   neither the row-gap marker nor None *)
 Definition fmt_value (dt : option dtype) (s : vshape) : res fmt :=
   let object_branch := Ret (if is_str s then FmtRepr else FmtStr) in
   match dt with
@@ -122,7 +128,7 @@ Definition fmt_value (dt : option dtype) (s : vshape) : res fmt :=
 
 (* ---- the preview ---- *)
 
-(* an entry of `preview`: the in-band string '...' or row i with its value *)
+(* an entry of `preview`: the private marker _ROW_GAP or row i with its value *)
 Inductive pitem := PEll | PVal (i : nat) (v : cellv).
 
 (* a body line of one column: the ellipsis text, or row i rendered through formatter f *)
@@ -135,7 +141,7 @@ Definition slice_last {A} (k : nat) (l : list A) : list A :=
 (* `max_preview = max(limit // 2, 0)`; Python's // is floor division, as is Z.div *)
 Definition half (limit : Z) : nat := Z.to_nat (Z.max (limit / 2) 0).
 
-(* display.py:80-88 *)
+(* display.py _format_column: `preview = list(vals[:h]) + [_ROW_GAP] + tail` or `list(vals)` *)
 Definition preview (h : nat) (vals : list cellv) : list pitem :=
   let n := List.length vals in
   let rows := map (fun iv => PVal (fst iv) (snd iv)) (combine (seq 0 n) vals) in
@@ -144,15 +150,13 @@ Definition preview (h : nat) (vals : list cellv) : list pitem :=
     firstn h rows ++ [PEll] ++ tail
   else rows.
 
-(* display.py:92-114 *)
+(* display.py _format_column: `if v is _ROW_GAP: ... elif v is None: ... elif <by dtype>` —
+   two identity tests, no primitive is applied to the value before its dtype branch *)
 Definition fmt_item (dt : option dtype) (p : pitem) : res item :=
   match p with
-  | PEll => Ret IEll                                   (* '...' == '...' *)
-  | PVal i None => Ret (IRow i FmtNone)                (* None == '...' is False; `v is None` *)
-  | PVal i (Some s) =>
-      bind (truth_eq_dots s) (fun is_dots =>
-        if is_dots then Ret IEll                       (* a data cell equal to '...' takes the marker's branch *)
-        else bind (fmt_value dt s) (fun f => Ret (IRow i f)))
+  | PEll => Ret IEll                                   (* `v is _ROW_GAP` *)
+  | PVal i None => Ret (IRow i FmtNone)                (* `v is None` *)
+  | PVal i (Some s) => bind (fmt_value dt s) (fun f => Ret (IRow i f))
   end.
 
 Definition format_column (dt : option dtype) (h : nat) (vals : list cellv) : res (list item) :=
@@ -162,7 +166,8 @@ Definition format_column (dt : option dtype) (h : nat) (vals : list cellv) : res
 
 (* what the header code can observe of a stored name (a str or any other object) *)
 Inductive nobj :=
-| NStr (empty dots : bool)        (* a str: is it "", is it "..." *)
+| NStr (empty dots : bool)        (* a str: is it "", is it "..." (the latter is no longer asked by
+                                     display.py; carried so that statements can name such a column) *)
 | NNonStr (empty dots : bool).    (* not a str: the same two questions about str(name) *)
 
 Definition n_is_str (o : nobj) : bool := match o with NStr _ _ => true | NNonStr _ _ => false end.
@@ -171,13 +176,11 @@ Definition n_text_empty (o : nobj) : bool := match o with NStr e _ | NNonStr e _
 Definition n_text_dots (o : nobj) : bool := match o with NStr _ d | NNonStr _ d => d end.
 (* `name != ""` on the stored object *)
 Definition n_is_empty_str (o : nobj) : bool := match o with NStr e _ => e | NNonStr _ _ => false end.
-(* `name == "..."` on a str *)
-Definition n_eq_dots (o : nobj) : bool := match o with NStr _ d => d | NNonStr _ _ => false end.
 
 (* str methods (isidentifier, [0].isdigit, lower) exist on str only *)
 Definition str_method (o : nobj) : res unit := if n_is_str o then Ret tt else Exn.
 
-(* display.py:34-71 _needs_quote: defined? (its boolean answer only chooses between
+(* display.py _needs_quote: defined? (its boolean answer only chooses between
    repr(name) and str(name), i.e. the cell text) *)
 Definition needs_quote (o : nobj) : res unit :=
   let o := if n_is_str o then o else n_to_str o in       (* `if not isinstance(name, str): name = str(name)` *)
@@ -201,7 +204,7 @@ Inductive vrepr :=
 | VRLines (header : bool) (body : list item) (count : nat) (dt : dtype).
     (* [name line] body lines, blank, "# {count} element vector <{dt}>" *)
 
-(* display.py:301-329, 413-420; vector.py Vector.shape *)
+(* display.py _repr_vector, _printr; vector.py Vector.shape *)
 Definition repr_vector (glob : Z) (v : vec) : res vrepr :=
   match vdata v with
   | [] => Ret VREmpty                                   (* shape () -> nd = 0 -> _footer: "# empty" *)
@@ -229,7 +232,7 @@ Definition t_ncols (t : tbl) : nat := List.length (tcols t).
 Definition t_nrows (t : tbl) : nat :=                    (* Table.__len__: _length = len(first column) *)
   match tcols t with [] => 0 | c :: _ => List.length (vdata c) end.
 
-Inductive hitem := HEll | HName (j : nat).               (* display-name row: "..." or the stored name of column j *)
+Inductive hitem := HEll | HName (j : nat).               (* display-name row: the _HIDDEN cell or the stored name of column j *)
 
 Inductive ftypes :=
 | FMixed                                                 (* "<mixed>": the types are in the header *)
@@ -259,7 +262,7 @@ Definition body_len (c : colbody) : nat :=
 
 Definition insert_at {A} (k : nat) (x : A) (l : list A) : list A := firstn k l ++ x :: skipn k l.
 
-(* display.py:346-351 — the column budget *)
+(* display.py _repr_table — the column budget *)
 Definition truncated_cols (num_cols : nat) : bool := MAX_HEAD_COLS * 2 <? num_cols.
 Definition col_indices (num_cols : nat) : list nat :=
   if truncated_cols num_cols
@@ -272,17 +275,19 @@ Definition shown_cols (cols : list vec) : list (nat * vec) :=
 Definition display_name (c : vec) : option nobj := option_map n_to_str (vname c).
 
 (* _header_rows, row 1: the display names — present iff some shown name is non-empty
-   (`any(n for n in display_names if n != "...")`) *)
+   (`any(n for n in display_names if n is not _HIDDEN)`: the _HIDDEN cell is skipped by identity,
+   every str(name) counts by its truth value) *)
 Definition name_counts (d : option nobj) : bool :=
   match d with
   | None => false
-  | Some o => negb (n_text_empty o) && negb (n_eq_dots o)
+  | Some o => negb (n_text_empty o)
   end.
+(* `if name is _HIDDEN: "..." elif _needs_quote(name): repr(name) else: name` — a str(name) is
+   never the _HIDDEN object, whatever its text *)
 Definition name_cell (jd : nat * option nobj) : res hitem :=
   match snd jd with
   | None => bind (needs_quote (NStr true false)) (fun _ => Ret (HName (fst jd)))   (* "" -> repr("") *)
-  | Some o => if n_eq_dots o then Ret HEll                   (* `if name == "...": row.append("...")` *)
-              else bind (needs_quote o) (fun _ => Ret (HName (fst jd)))
+  | Some o => bind (needs_quote o) (fun _ => Ret (HName (fst jd)))
   end.
 Definition display_row (truncated : bool) (shown : list (nat * vec)) : res (option (list hitem)) :=
   let disp := map (fun jc => (fst jc, display_name (snd jc))) shown in
@@ -300,7 +305,7 @@ Definition types_row (truncated : bool) (dtypes_displayed : list dtype) : option
              else map Some dtypes_displayed)
   else None.
 
-(* display.py:397-408 + _footer: what stands between < and > *)
+(* display.py _repr_table (end) + _footer: what stands between < and > *)
 Definition footer_types (truncated shows_types : bool) (dtypes_all : list dtype) : ftypes :=
   if shows_types then FMixed
   else if Nat.eqb (List.length (distinct_dtypes dtypes_all)) 1
@@ -310,20 +315,21 @@ Definition footer_types (truncated shows_types : bool) (dtypes_all : list dtype)
                         ++ map Some (slice_last MAX_HEAD_COLS dtypes_all)
                    else map Some dtypes_all).
 
-(* display.py:368-376: the formatted columns, with the "..." column in the middle *)
+(* display.py _repr_table: the formatted columns, with the "..." column in the middle *)
 Definition table_body (truncated : bool) (formatted : list (list item)) : list colbody :=
   let body0 := map CItems formatted in
   let first_len := match body0 with c :: _ => body_len c | [] => 0 end in
   if truncated then insert_at MAX_HEAD_COLS (CDots first_len) body0 else body0.
 
-(* Table.shape grows a third dimension when the first cell has a .shape (is a Vector) *)
+(* Table.shape = (rows, cols) + first_cell.shape when the first cell has a .shape (is a Vector):
+   a third dimension appears when that vector is non-empty (the shape of an empty one is ()) *)
 Definition first_cell_has_shape (cols : list vec) : bool :=
   match cols with
-  | c :: _ => match vdata c with Some VVector :: _ => true | _ => false end
+  | c :: _ => match vdata c with Some (VVector nonempty) :: _ => nonempty | _ => false end
   | [] => false
   end.
 
-(* display.py:332-410, 413-420 *)
+(* display.py _repr_table, _printr *)
 Definition repr_table (glob : Z) (t : tbl) : res trepr :=
   let cols := tcols t in
   let num_cols := List.length cols in
@@ -352,7 +358,7 @@ Definition repr_table (glob : Z) (t : tbl) : res trepr :=
         else Exn)).
 
 (* ---- the global row budget ---- *)
-(* display.py:15-31 set_repr_rows: `n if n is not None else 12` *)
+(* display.py set_repr_rows: `n if n is not None else 12` *)
 Definition set_repr_rows (n : option Z) : Z := match n with Some z => z | None => 12%Z end.
 
 (* repr as an operation on the interpreter state it can see: (global budget, object).
